@@ -1,6 +1,7 @@
 mod exec;
 mod hooks;
 mod lin;
+mod c07;
 mod checks;
 mod monitor;
 mod pure;
@@ -72,6 +73,11 @@ fn explore(name: &str, params: &Params, bound: usize, trace_first: bool) {
 
 fn main() {
     let args: Vec<String> = std::env::args().collect();
+    if args.get(1).map(|s| s.as_str()) == Some("c07case") {
+        // no hooks, no monitors: the plain library
+        let a: Vec<usize> = args[2..6].iter().map(|s| s.parse().unwrap()).collect();
+        std::process::exit(c07::run_case(a[0], a[1], a[2], a[3]));
+    }
     hooks::install();
     match args.get(1).map(|s| s.as_str()) {
         Some("explore") => {
